@@ -444,7 +444,16 @@ def run_hyp(run, cfg, timeout):
       if st == 'unsat':
         continue
       feasible += 1
-      assignment = [d[1] for d in script if isinstance(d, tuple)][:len(sizes)]
+      forks = [d[1] for d in script if isinstance(d, tuple)]
+      nonempty = [i for i, n in enumerate(sizes) if n > 0]
+      # an empty client has loss 0 under every cluster: its argmin is the constant 0 (no fork); the others fork in client order
+      assignment = [0] * len(sizes)
+      for i, a_ in zip(nonempty, forks):
+        assignment[i] = a_
+      if len(forks) not in (len(nonempty), len(sizes)):
+        assignment = []
+      elif len(forks) == len(sizes):
+        assignment = forks[:len(sizes)]
       if len(assignment) != len(sizes):
         run.ob(nm + ':paths', 'error', detail='unexpected fork structure %s' % (script,))
         continue
